@@ -364,9 +364,14 @@ Fixpoint lex (fuel : nat) (e : env) (s : list Z) : list cmd :=
       end
   end.
 
-(* one PLAY statement *)
+(* one PLAY statement with one string operand; `if not any(mml_list): raise MISSING_OPERAND` makes the empty
+   string (not the blank one) Missing operand *)
+Definition missing_operand : Z := 22.
 Definition play (fuel : nat) (e : env) (st : pstate) (s : list Z) : list event * pstate * res unit :=
-  run st (lex fuel e s).
+  match s with
+  | [] => ([], st, Err missing_operand)
+  | _ :: _ => run st (lex fuel e s)
+  end.
 
 (* ---------- canonical encoding for the correspondence ---------- *)
 (* is the observed binary64 value n/d within 2^-40 relative of the exact q ? *)
